@@ -90,3 +90,7 @@ Definition py_except {A} (e1 e2 : exn) (o : outcome A) : outcome A :=
   | Raise e => if exn_eqb e e1 then Raise e2 else Raise e
   | Ok a => Ok a
   end.
+
+(* ---- added for the classification predicates (third round) ---- *)
+(* the truth value of the result of a method that returns a bool on some paths and falls off its end (None) on the others *)
+Definition py_truthy (o : option bool) : bool := match o with Some b => b | None => false end.
